@@ -68,6 +68,17 @@ def make_trees(r, tier):
             t = T.random_tree(r, size, names=["Gal", "Galf", "Ara", "Araf", "Xyl", "Xylf", "Glc", "Glcf", "Fruf", "Neu5Ac", "GlcN", "Kdo", "Rib", "Ribf"], p_branch=0.4)
         suffix = r.choice(["", "", " a", " b"]) if k != 3 else ""
         out.append((t, suffix))
+    # four substituents on a non-root residue, on the root, and nested (the 12-children production of the grammar)
+    four = T.Node("Glc", [("b", 1, 4, T.Node("Man", [("a", 1, 2, T.Node("Gal")), ("a", 1, 3, T.Node("Fuc")), ("b", 1, 4, T.Node("Xyl")), ("a", 2, 6, T.Node("Neu5Ac"))]))])
+    out.append((four, ""))
+    out.append((T.Node("Man", [("a", 1, 2, T.Node("Gal")), ("a", 1, 3, T.Node("Fuc")), ("b", 1, 4, T.Node("Xyl")), ("b", 1, 6, T.Node("GlcNAc"))]), ""))
+    out.append((T.Node("Glc", [("b", 1, 3, four.kids[0][3]), ("a", 1, 6, T.Node("Man", [("a", 1, 2, T.Node("Man")), ("a", 1, 3, T.Node("Gal")), ("a", 1, 4, T.Node("Glc")), ("a", 1, 6, T.Node("Rha"))]))]), " b"))
+    for perm_seed in range(3 if tier == "quick" else 12):
+        names4 = r.sample(["Gal", "Fuc", "Xyl", "Man", "Glc", "GlcNAc", "Rha", "Galf"], 4)
+        poss = [2, 3, 4, 6]
+        r.shuffle(poss)
+        mid = T.Node(r.choice(["Man", "Glc", "Gal"]), [(r.choice("ab"), 1, p, T.Node(nm)) for nm, p in zip(names4, poss)])
+        out.append((T.Node("Glc", [("b", 1, r.choice([2, 3, 4, 6]), mid)]), ""))
     # every modification token once on a non-root residue (quick: the fixed list; thorough: a second position too)
     for tok in MODS:
         for pos, link in ((3, 4), (6, 2)) if tier == "thorough" else (((3, 4),) if len(out) % 2 else ((6, 2),)):
